@@ -384,6 +384,7 @@ func runC16(c *core.Ctx) {
 				c.Violation("panic during concurrent "+conc[g][i].Op+": "+core.MsgClass(cr), id, map[string]any{"actor": g, "result": cr})
 				continue
 			}
+			c.Class(mode0(census), G, P, c.Shard, g, i, conc[g][i].Op)
 			if cr != sr {
 				c.Violation(fmt.Sprintf("concurrent %s returns another result than the same call made sequentially", conc[g][i].Op), id, map[string]any{"actor": g, "operation": conc[g][i].Op, "G": G, "GOMAXPROCS": P, "concurrent": trunc(cr), "sequential": trunc(sr), "spurious_cycle_error": strings.Contains(cr, "cycle")})
 				continue
@@ -416,6 +417,13 @@ func runC16(c *core.Ctx) {
 	}
 	c.Sample(mode, map[string]any{"goroutines": G, "GOMAXPROCS": P, "operations_per_goroutine": len(conc[0]), "concurrent_pass_ms": concTime.Milliseconds(), "max_calls_in_flight": atomic.LoadInt64(&maxInFlight)})
 	removeAll(base)
+}
+
+func mode0(census bool) string {
+	if census {
+		return "census"
+	}
+	return "race"
 }
 
 func relativise(s, dir string) string { return strings.ReplaceAll(s, dir, "<dir>") }
@@ -507,7 +515,7 @@ func init() {
 		ID:    "C16",
 		Level: "exploration",
 		Rule: "rounds = fresh worker processes (quick 16, thorough 48); round k uses G in {2,4,8,16,32} goroutines and GOMAXPROCS in {2,4,16}; every goroutine owns a generated tree (half with file and directory symlinks, half with 2 MiB CRLF files), keys, a chain directory and metadata files, and runs 1 (quick) / 3 (thorough) times the list LoadMetadata of layout and links (first library operation of the process: cold caches), RecordArtifacts with and without normalisation, Metablock Sign/Dump/Load/Verify, Envelope SetPayload/Sign/Dump/Load/Verify, InTotoRun (vhelper), InTotoRecordStart/Stop, InTotoMatchProducts, InTotoVerify (no inspections; layout with its own intermediate CA; the caller's list of additional intermediates is one read-only slice with spare capacity shared by all goroutines), InTotoVerifyWithDirectory (own run dir, globally unique inspection name), SubstituteParameters; then the same lists are executed sequentially on identical copies of the data and compared result by result. Even shards run the -race build with GORACE=halt_on_error=0 log_path=...: report blocks are counted from the log files and attributed by their in_toto frames; the hook handler there only yields. Odd shards run the normal build in census mode: hook events (record_reset / record_symlink) are logged with their owner, the evidence lists the distinct interleavings (windows of 12 events) and the maximum number of calls in flight. " +
-			"non-trivial = a round with >=2 calls in flight; distinct = (mode, G, GOMAXPROCS, interleaving hash)",
+			"non-trivial = a round with >=2 calls in flight; distinct = (mode, round, goroutine, position in its operation list) of the compared concurrent calls, plus (mode, G, GOMAXPROCS, interleaving hash) per round",
 		Assumptions: []string{"inspections of InTotoVerify without run directory use the process cwd and are excluded from 'independent data'; InTotoVerifyWithDirectory drops <inspection>.link into the shared cwd under globally unique names", "the race detector only sees races on executed paths; its silence is 'no report on these executions'"},
 		Workers: func(t string) int {
 			if t == "thorough" {
